@@ -223,6 +223,13 @@ func (c *bvCtx) bvSpec(e SExpr, names map[string]bvVal, want int, wantSigned boo
 		}
 		return c.binop(tk, x, y)
 	case *SCall:
+		if n.Fn == "ispow2" && len(n.Args) == 1 {
+			// x is a power of two: exactly one bit set
+			x := c.bvSpec(n.Args[0], names, want, wantSigned)
+			one := bvLit("1", x.w)
+			zero := bvLit("0", x.w)
+			return bvVal{fmt.Sprintf("(and (not (= %s %s)) (= (bvand %s (bvsub %s %s)) %s))", x.t, zero, x.t, x.t, one, zero), 0, false}
+		}
 		tk := map[string]token.Token{"bvand": token.AND, "bvor": token.OR, "bvxor": token.XOR, "shl": token.SHL, "shr": token.SHR}[n.Fn]
 		if tk == 0 || len(n.Args) != 2 {
 			specFail("bitvector mode: function %s", n.Fn)
